@@ -1916,7 +1916,7 @@ func (g *gen) genFunc(p fnPlan) {
 	// a defer without recover must not see a panic pass: see the directed case
 	// "defer-without-recover-lets-panic-through"
 	savedNoPanic := g.noPanic
-	g.noPanic = g.noPanic || p.deferKind == 3
+	g.noPanic = g.noPanic || p.deferKind >= 3
 	defer func() { g.noPanic = savedNoPanic }()
 	f.recovers = p.recovers
 	g.loops = nil
@@ -1979,6 +1979,22 @@ func (g *gen) genFunc(p fnPlan) {
 	case 3:
 		g.f("defer-call")
 		g.w("defer note(%d)", 1+g.r.Intn(8))
+		f.impure = true
+	case 4:
+		// several deferred calls, one of them conditional; no panic passes (see
+		// the directed case "recovered-panic-in-function-with-two-defers")
+		g.f("defer-call")
+		g.f("defer-several")
+		g.w("defer note(%d)", 1+g.r.Intn(8))
+		restore := g.exprMode()
+		c := g.cond(1)
+		restore()
+		g.w("if %s {", c)
+		g.w("\tdefer note(%d)", 1+g.r.Intn(8))
+		g.w("}")
+		if g.r.Bool() {
+			g.w("defer note(%d)", 1+g.r.Intn(8))
+		}
 		f.impure = true
 	}
 	if p.recursive {
@@ -2305,7 +2321,7 @@ func genProgram(idx int, tuples int) *program {
 			plan.recovers = true
 			plan.deferKind = 1 + r.Intn(2)
 		case 3:
-			plan.deferKind = 3
+			plan.deferKind = 3 + r.Intn(2)
 		}
 		g.genFunc(plan) // f is not callable from its own body except for the planned descent
 		g.funcs = append(g.funcs, f)
@@ -2330,7 +2346,7 @@ func genProgram(idx int, tuples int) *program {
 			plan.recovers = true
 			plan.deferKind = 1 + r.Intn(2)
 		case 1:
-			plan.deferKind = 3
+			plan.deferKind = 3 + r.Intn(2)
 		}
 		g.genFunc(plan)
 		p.funcs = append(p.funcs, f)
